@@ -71,6 +71,8 @@ type vnetScenario struct {
 	streams              []vnetStreamPlan
 	hsdrop               bool // scripted: lose the client's Handshake-Finished datagram(s) and the
 	drop1RTT             int  // next drop1RTT client datagrams (1-RTT data sent right behind it)
+	holdRetx             int  // then hold this many client datagrams back until the one after them
+	hsLoss               int  // and before that: lose the server's first hsLoss large datagrams (its handshake flight)
 }
 
 func vnetGen(r *vu.Rng, i int, prop int) []string {
@@ -124,8 +126,14 @@ func vnetParse(ops []string) (sc vnetScenario, ok bool) {
 				sc.sr[s], sc.sw[s], sc.cr[s] = vu.Atoi64(t[7+3*s]), vu.Atoi64(t[8+3*s]), vu.Atoi64(t[9+3*s])
 			}
 			ok = true
-		case t[1] == "hsdrop" && len(t) == 3:
+		case t[1] == "hsdrop" && (len(t) >= 3 && len(t) <= 5):
 			sc.hsdrop, sc.drop1RTT = true, vu.Atoi(t[2])
+			if len(t) >= 4 {
+				sc.holdRetx = vu.Atoi(t[3])
+			}
+			if len(t) == 5 {
+				sc.hsLoss = vu.Atoi(t[4])
+			}
 		case t[1] == "stream" && len(t) == 11:
 			p := vnetStreamPlan{side: vu.Atoi(t[2]) & 1, uni: t[3] == "u", total: vu.Atoi(t[4]), chunk: max(1, vu.Atoi(t[5])),
 				flushMode: vu.Atoi(t[6]), end: t[7], resetAfter: vu.Atoi(t[8]), readSize: max(1, vu.Atoi(t[9])), readerStop: vu.Atoi(t[10])}
@@ -371,7 +379,8 @@ func vnetRun(t *testing.T, sc vnetScenario, prop int, res *vnetResult) {
 			QLogLogger:               slog.New(vnetLog{side: s, mu: &logMu, buf: &logBuf[s]}),
 			// PTO back-off under heavy loss may exceed the default idle timeout; the property is about
 			// delivery once traffic gets through, so idle expiry is taken out of the picture.
-			MaxIdleTimeout:  6 * time.Hour,
+			HandshakeTimeout: map[bool]time.Duration{false: 0, true: 2 * time.Minute}[sc.hsdrop],
+			MaxIdleTimeout: map[bool]time.Duration{false: 6 * time.Hour, true: 0}[sc.hsdrop], // scripted handshake-loss cases keep the default
 		}
 		var lc *Config
 		if s == 1 {
@@ -400,7 +409,9 @@ func vnetRun(t *testing.T, sc vnetScenario, prop int, res *vnetResult) {
 	// ---- network
 	var flights []vnetFlight
 	seq, faultsLeft := 0, 0
-	dropNextClient := 0
+	dropNextClient, holdLeft := 0, 0
+	dropServerLarge := sc.hsLoss
+	var held [][]byte
 	collect := func() {
 		wire.mu.Lock()
 		out := wire.out
@@ -410,10 +421,28 @@ func vnetRun(t *testing.T, sc vnetScenario, prop int, res *vnetResult) {
 		for s := 0; s < 2; s++ {
 			for _, b := range out[s] {
 				res.stats["net:datagrams"]++
+				if s == 1 && dropServerLarge > 0 && len(b) >= 600 {
+					dropServerLarge--
+					res.stats["net:scripted-drop"]++
+					continue
+				}
 				if s == 0 && dropNextClient > 0 {
 					dropNextClient--
 					res.stats["net:scripted-drop"]++
 					continue
+				}
+				if s == 0 && holdLeft > 0 {
+					holdLeft--
+					held = append(held, b)
+					res.stats["net:scripted-hold"]++
+					continue
+				}
+				if s == 0 && len(held) > 0 {
+					for _, hb := range held {
+						flights = append(flights, vnetFlight{to: 1, b: hb, due: now.Add(time.Millisecond), seq: seq})
+						seq++
+					}
+					held = nil
 				}
 				copies := 1
 				delay := time.Duration(0)
@@ -523,7 +552,7 @@ func vnetRun(t *testing.T, sc vnetScenario, prop int, res *vnetResult) {
 			}
 			conns[0] = dr.c
 		default:
-			if i > 2000 {
+			if i > 40000 {
 				fail("net-no-progress", "handshake did not complete")
 				return
 			}
@@ -545,7 +574,9 @@ func vnetRun(t *testing.T, sc vnetScenario, prop int, res *vnetResult) {
 			kept = append(kept, f)
 		}
 		flights = kept
+		res.stats[fmt.Sprintf("net:client-pto-backoff-after-handshake=%d", conns[0].loss.ptoBackoffCount)]++
 		dropNextClient = sc.drop1RTT
+		holdLeft = sc.holdRetx
 	}
 	for i := 0; !sc.hsdrop && conns[1] == nil && i < 2000; i++ {
 		flush()
